@@ -2,7 +2,7 @@
 Model of `DiffEqSolver` / `QuasiNeutralitySolver`, pygyro/poisson/poisson_solver.py (properties C14, C15).
 
   mode numbers            :162, :217     `mVal`, `m2`                 (np.fft.fftfreq(nTheta, 1/nTheta), squared in place)
-  refusal                 :183-186       `poorlyDefined`, `refuses`, `funcIsNull` (:309-317)
+  refusal                 :187-194       `poorlyDefined`, `refuses` (`refusesOld`: before F33), `funcIsNull` (:315-323)
   boundary slices         :190-215       `startRange`, `endRange`, `exclEnd`, `nUnknowns`, `coeffRange`, `stiffRange`
   diagonal storage        :222-237       `aliasIdx` (the `extend(...[-2::-1])` reference sharing), `symRow`, `fullRow`
   assembly loops          :239-274       `overlap`, `quadSum`, `massTerm` … `dPhiPsiLo`, `assemble`
@@ -65,11 +65,17 @@ def stiffRange (c : BCConfig) (I : ℕ) : ℕ × ℕ :=
   ((if lNeumann c I then 0 else 1 - startRange c),
    nUnknowns c - (if uNeumann c I then 0 else 1 - exclEnd c))
 
-/-- `poorlyDefined = [b for b in lNeumannIdx if b in uNeumannIdx]` -/
-def poorlyDefined (c : BCConfig) : List ℤ := c.lNeu.filter (fun b => decide (b ∈ c.uNeu))
+/-- `poorlyDefined = [b for b in lNeumannIdx if b in uNeumannIdx and self.funcIsNull(lambda r: rFactor(r)-b*b*ddThetaFactor(r))]`;
+    `null b` stands for that test for the number `b`: the reaction term of mode `b`, `C − b² D`, vanishes at every quadrature
+    point (finding F33: before, the test was `funcIsNull(rFactor)`, the same for every `b`) -/
+def poorlyDefined (c : BCConfig) (null : ℤ → Bool) : List ℤ := c.lNeu.filter (fun b => decide (b ∈ c.uNeu) && null b)
 
-/-- `if len(poorlyDefined) != 0 and self.funcIsNull(rFactor): raise ValueError` -/
-def refuses (c : BCConfig) (rFactorNull : Bool) : Bool := (poorlyDefined c).length != 0 && rFactorNull
+/-- `if len(poorlyDefined) != 0: raise ValueError` -/
+def refuses (c : BCConfig) (null : ℤ → Bool) : Bool := (poorlyDefined c null).length != 0
+
+/-- the test before the repair F33: `if len([b for b in lNeumannIdx if b in uNeumannIdx]) != 0 and self.funcIsNull(rFactor)` -/
+def refusesOld (c : BCConfig) (rFactorNull : Bool) : Bool :=
+  (c.lNeu.filter (fun b => decide (b ∈ c.uNeu))).length != 0 && rFactorNull
 
 /-! ### assembly (numerical, over a field) -/
 
